@@ -42,6 +42,11 @@ package ledger
 //@ function runIn(ps []ledger.Posting, l ledger.PostCommitVolumes, m int, acc string, x string) int = pcvIn(l, acc, x) - (credits(ps, acc, x) - credits_upto(ps, m, acc, x))
 //@ function runOut(ps []ledger.Posting, l ledger.PostCommitVolumes, m int, acc string, x string) int = pcvOut(l, acc, x) - (debits(ps, acc, x) - debits_upto(ps, m, acc, x))
 
+// moveOK(mv, src, acc, x, amt, in, out): mv is the move of one side of a posting — the account, asset and amount of the posting and the
+// running volumes (in, out) of (acc, x) after that movement. One atom per move: a goal about a move is a single literal, so all
+// its terms stay relevant for E-matching (a conjunction is refuted branch by branch and loses the trigger terms in most branches).
+//@ function moveOK(mv *ledger.Move, src bool, acc string, x string, amt *big.Int, inV int, outV int) bool = mv != nil && mv.PostCommitVolumes != nil && mv.IsSource == src && mv.Account == acc && mv.Asset == x && mv.Amount == amt && val(mv.PostCommitVolumes.Input) == inV && val(mv.PostCommitVolumes.Output) == outV
+
 // ---- transactions.go: CommitTransaction (C01 C02 C03 C35) -------------------------------------------
 
 //@ func (store *Store) CommitTransaction(ctx context.Context, tx *ledger.Transaction) (err error)
@@ -58,14 +63,8 @@ package ledger
 //@   ensures err == nil ==> (nInsertMoves == old(nInsertMoves) + 1) == (store.ledger.Features["MOVES_HISTORY"] == "ON")
 //@   ensures err == nil && store.ledger.Features["MOVES_HISTORY"] != "ON" ==> nInsertMoves == old(nInsertMoves)
 //@   ensures err == nil && nInsertMoves == old(nInsertMoves) + 1 ==> len(lastMoves) == 2 * len(tx.Postings)
-//@   ensures err == nil && nInsertMoves == old(nInsertMoves) + 1 ==> forall i int :: {tx.Postings[i]} 0 <= i && i < len(tx.Postings) ==> lastMoves[2 * i] != nil && lastMoves[2 * i].PostCommitVolumes != nil && lastMoves[2 * i].IsSource && lastMoves[2 * i].Account == tx.Postings[i].Source
-//@   ensures err == nil && nInsertMoves == old(nInsertMoves) + 1 ==> forall i int :: {tx.Postings[i]} 0 <= i && i < len(tx.Postings) ==> lastMoves[2 * i] != nil && lastMoves[2 * i].Asset == tx.Postings[i].Asset && lastMoves[2 * i].Amount == tx.Postings[i].Amount
-//@   ensures err == nil && nInsertMoves == old(nInsertMoves) + 1 ==> forall i int :: {tx.Postings[i]} 0 <= i && i < len(tx.Postings) ==> lastMoves[2 * i] != nil && lastMoves[2 * i].PostCommitVolumes != nil && val(lastMoves[2 * i].PostCommitVolumes.Input) == runIn(tx.Postings, lastPCV, i, tx.Postings[i].Source, tx.Postings[i].Asset)
-//@   ensures err == nil && nInsertMoves == old(nInsertMoves) + 1 ==> forall i int :: {tx.Postings[i]} 0 <= i && i < len(tx.Postings) ==> lastMoves[2 * i] != nil && lastMoves[2 * i].PostCommitVolumes != nil && val(lastMoves[2 * i].PostCommitVolumes.Output) == runOut(tx.Postings, lastPCV, i + 1, tx.Postings[i].Source, tx.Postings[i].Asset)
-//@   ensures err == nil && nInsertMoves == old(nInsertMoves) + 1 ==> forall i int :: {tx.Postings[i]} 0 <= i && i < len(tx.Postings) ==> lastMoves[2 * i + 1] != nil && lastMoves[2 * i + 1].PostCommitVolumes != nil && !lastMoves[2 * i + 1].IsSource && lastMoves[2 * i + 1].Account == tx.Postings[i].Destination
-//@   ensures err == nil && nInsertMoves == old(nInsertMoves) + 1 ==> forall i int :: {tx.Postings[i]} 0 <= i && i < len(tx.Postings) ==> lastMoves[2 * i + 1] != nil && lastMoves[2 * i + 1].Asset == tx.Postings[i].Asset && lastMoves[2 * i + 1].Amount == tx.Postings[i].Amount
-//@   ensures err == nil && nInsertMoves == old(nInsertMoves) + 1 ==> forall i int :: {tx.Postings[i]} 0 <= i && i < len(tx.Postings) ==> lastMoves[2 * i + 1] != nil && lastMoves[2 * i + 1].PostCommitVolumes != nil && val(lastMoves[2 * i + 1].PostCommitVolumes.Input) == runIn(tx.Postings, lastPCV, i + 1, tx.Postings[i].Destination, tx.Postings[i].Asset)
-//@   ensures err == nil && nInsertMoves == old(nInsertMoves) + 1 ==> forall i int :: {tx.Postings[i]} 0 <= i && i < len(tx.Postings) ==> lastMoves[2 * i + 1] != nil && lastMoves[2 * i + 1].PostCommitVolumes != nil && val(lastMoves[2 * i + 1].PostCommitVolumes.Output) == runOut(tx.Postings, lastPCV, i + 1, tx.Postings[i].Destination, tx.Postings[i].Asset)
+//@   ensures err == nil && nInsertMoves == old(nInsertMoves) + 1 ==> forall i int :: {tx.Postings[i]} 0 <= i && i < len(tx.Postings) ==> moveOK(lastMoves[2 * i], true, tx.Postings[i].Source, tx.Postings[i].Asset, tx.Postings[i].Amount, runIn(tx.Postings, lastPCV, i, tx.Postings[i].Source, tx.Postings[i].Asset), runOut(tx.Postings, lastPCV, i + 1, tx.Postings[i].Source, tx.Postings[i].Asset))
+//@   ensures err == nil && nInsertMoves == old(nInsertMoves) + 1 ==> forall i int :: {tx.Postings[i]} 0 <= i && i < len(tx.Postings) ==> moveOK(lastMoves[2 * i + 1], false, tx.Postings[i].Destination, tx.Postings[i].Asset, tx.Postings[i].Amount, runIn(tx.Postings, lastPCV, i + 1, tx.Postings[i].Destination, tx.Postings[i].Asset), runOut(tx.Postings, lastPCV, i + 1, tx.Postings[i].Destination, tx.Postings[i].Asset))
 //@   loop 1:
 //@     index k
 //@     mention pcvHas(lastPCV, posting.Source, posting.Asset)
@@ -79,8 +78,8 @@ package ledger
 //@     invariant forall acc string, x string :: {pcvHas(postCommitVolumes, acc, x)} {pcvHas(lastPCV, acc, x)} pcvHas(postCommitVolumes, acc, x) == pcvHas(lastPCV, acc, x)
 //@     invariant forall acc string, x string :: {pcvIn(postCommitVolumes, acc, x)} {runIn(tx.Postings, lastPCV, len(tx.Postings) - k, acc, x)} pcvHas(lastPCV, acc, x) ==> pcvIn(postCommitVolumes, acc, x) == runIn(tx.Postings, lastPCV, len(tx.Postings) - k, acc, x)
 //@     invariant forall acc string, x string :: {pcvOut(postCommitVolumes, acc, x)} {runOut(tx.Postings, lastPCV, len(tx.Postings) - k, acc, x)} pcvHas(lastPCV, acc, x) ==> pcvOut(postCommitVolumes, acc, x) == runOut(tx.Postings, lastPCV, len(tx.Postings) - k, acc, x)
-//@     invariant forall j int :: {postings[j]} 0 <= j && j < k ==> moves[2 * j] != nil && moves[2 * j].PostCommitVolumes != nil && !moves[2 * j].IsSource && moves[2 * j].Account == postings[j].Destination && moves[2 * j].Asset == postings[j].Asset && moves[2 * j].Amount == postings[j].Amount && val(moves[2 * j].PostCommitVolumes.Input) == runIn(tx.Postings, lastPCV, len(tx.Postings) - j, postings[j].Destination, postings[j].Asset) && val(moves[2 * j].PostCommitVolumes.Output) == runOut(tx.Postings, lastPCV, len(tx.Postings) - j, postings[j].Destination, postings[j].Asset)
-//@     invariant forall j int :: {postings[j]} 0 <= j && j < k ==> moves[2 * j + 1] != nil && moves[2 * j + 1].PostCommitVolumes != nil && moves[2 * j + 1].IsSource && moves[2 * j + 1].Account == postings[j].Source && moves[2 * j + 1].Asset == postings[j].Asset && moves[2 * j + 1].Amount == postings[j].Amount && val(moves[2 * j + 1].PostCommitVolumes.Input) == runIn(tx.Postings, lastPCV, len(tx.Postings) - 1 - j, postings[j].Source, postings[j].Asset) && val(moves[2 * j + 1].PostCommitVolumes.Output) == runOut(tx.Postings, lastPCV, len(tx.Postings) - j, postings[j].Source, postings[j].Asset)
+//@     invariant forall j int :: {postings[j]} 0 <= j && j < k ==> moveOK(moves[2 * j], false, postings[j].Destination, postings[j].Asset, postings[j].Amount, runIn(tx.Postings, lastPCV, len(tx.Postings) - j, postings[j].Destination, postings[j].Asset), runOut(tx.Postings, lastPCV, len(tx.Postings) - j, postings[j].Destination, postings[j].Asset))
+//@     invariant forall j int :: {postings[j]} 0 <= j && j < k ==> moveOK(moves[2 * j + 1], true, postings[j].Source, postings[j].Asset, postings[j].Amount, runIn(tx.Postings, lastPCV, len(tx.Postings) - 1 - j, postings[j].Source, postings[j].Asset), runOut(tx.Postings, lastPCV, len(tx.Postings) - j, postings[j].Source, postings[j].Asset))
 
 // ---- resource handlers: which feature gates which read (C17 C35) -------------------------------------------
 // The bun query builder is abstracted to a descriptor: which JOIN fragments and which column expressions a
